@@ -19,16 +19,16 @@ def judged(rec, content):
     return not (rec.get("nullable") and any(c in (10, 11) for c in content))
 
 
-def per_file(rec, lines, maxc):
+def per_file(rec, lines, maxc, key="lines"):
     """-> {file index: dict(count, matches, judged_ok)} from the spec's per-line records."""
     res = {}
     for k in range(NF):
         idx = [i for i in range(len(lines)) if i % NF == k]
-        sel = [i for i in idx if rec["lines"][i]["sel"]]
+        sel = [i for i in idx if rec[key][i]["sel"]]
         if maxc:
             sel = sel[:maxc]
         ok = all(judged(rec, lines[i]) for i in sel)
-        res[k] = {"count": len(sel), "matches": sum(len(rec["lines"][i]["m"]) for i in sel), "exact": ok}
+        res[k] = {"count": len(sel), "matches": sum(len(rec[key][i]["m"]) for i in sel), "exact": ok}
     return res
 
 
@@ -37,7 +37,7 @@ def parse_counts(so):
     for l in so.split(b"\n"):
         if b":" in l:
             p, c = l.rsplit(b":", 1)
-            out[p.rsplit(b"/", 1)[-1].decode()] = int(c)
+            out[p.rsplit(b"/", 1)[-1].decode("latin1")] = int(c) if c.isdigit() else c.decode("latin1")
     return out
 
 
@@ -62,25 +62,35 @@ def main(tier):
                 body = [rr.sym_bytes(lines[i]) for i in range(len(lines)) if i % NF == k]
                 sc.write("%s/f%d" % (d, k), b"\n".join(body) + (b"\n" if term_last else b""))
             dirs[term_last] = sc.path(d)
+        for k in range(NF):
+            body = [rr.sym_bytes(lines[i]) for i in range(len(lines)) if i % NF == k]
+            sc.write("c/f%d" % k, b"\r\n".join(body) + b"\r\n")
+        dirs["crlf_content"] = sc.path("c")
         base = ["--no-config", "--color", "never", "-j1", "--sort", "path"]
         modes = [("count", ["-c", "--include-zero"]), ("countm", ["--count-matches", "--include-zero"]), ("only", ["-o", "-n", "--no-heading"]),
-                 ("lwith", ["-l"]), ("lwithout", ["--files-without-match"]), ("quiet", ["-q"]), ("json", ["--json"]), ("stats", ["-c", "--stats"])]
+                 ("lwith", ["-l"]), ("lwithout", ["--files-without-match"]), ("quiet", ["-q"]), ("json", ["--json"]), ("stats", ["-c", "--stats"]),
+                 ("statsj", ["-c", "--stats"])]
         jobs, meta = [], []
         for i, r in enumerate(recs):
             pa = rr.opt_flags(r["o"]) + ["-e", rr.render(r["u"])]
             for maxc in (0, 1, 2):
-                for term_last in ((True, False) if maxc == 0 else (True,)):
+                for term_last in ((True, False, "crlf_content") if maxc == 0 else (True,)):
+                    if term_last == "crlf_content" and not r.get("crlines"):
+                        continue
                     for name, flags in modes:
                         if r["o"]["inv"] and name in ("countm", "only"):
                             continue
-                        a = base + flags + (["-m", str(maxc)] if maxc else []) + pa + ["f0", "f1", "f2"]
+                        b2 = ["--no-config", "--color", "never", "-j4"] if name == "statsj" else base
+                        a = b2 + flags + (["-m", str(maxc)] if maxc else []) + pa + ["f0", "f1", "f2"]
                         jobs.append({"args": a, "cwd": dirs[term_last]})
                         meta.append((i, maxc, term_last, name))
         outs = rgrun.run_many(jobs)
         chk.evaluations += len(jobs)
         for (i, maxc, term_last, name), (rc, so, se), j in zip(meta, outs, jobs):
             r = recs[i]
-            exp = per_file(r, lines, maxc)
+            exp = per_file(r, lines, maxc, "crlines" if term_last == "crlf_content" else "lines")
+            if name == "statsj":
+                name = "stats"
             exact = all(v["exact"] for v in exp.values())
             why = None
             anysel = any(v["count"] for v in exp.values())
@@ -147,11 +157,11 @@ def main(tier):
                 if got != want:
                     why = {"stats": got, "expected": want}
             if why:
-                sig = {"mode": name, "maxcount": maxc, "unterminated": not term_last, "pattern": rr.render(r["u"]),
+                sig = {"mode": name, "maxcount": maxc, "unterminated": term_last is False, "crlf_content": term_last == "crlf_content", "pattern": rr.render(r["u"]),
                        "opts": sorted(k for k, v in r["o"].items() if v), "nullable": bool(r.get("nullable"))}
                 # mechanism: is the whole deficit explained by the empty match at the very end of each file's
                 # unterminated last line (which the printers drop)?
-                if not term_last and isinstance(why, dict):
+                if term_last is False and isinstance(why, dict):
                     deficit = {}
                     for k, n in enumerate(names):
                         last = max(i for i in range(len(lines)) if i % NF == k)
